@@ -15,12 +15,23 @@ use std::sync::{Arc, Mutex};
 static SWEEP: AtomicUsize = AtomicUsize::new(0);
 
 fn rand_tx(rng: &mut SmallRng, u: &Universe, maxops: usize, invalid_pct: u32, unique: Option<&AtomicUsize>) -> (J, Vec<(u8, Operation<Vec<u8>, Vec<u8>>)>) {
-    let n = 1 + rng.gen::<usize>() % maxops;
+    let mut n = 1 + rng.gen::<usize>() % maxops;
     let mut jops = Vec::new();
     let mut ops = Vec::new();
+    // one time in seven (when there is a counting column): a burst of up to six operations on ONE key of it, so that
+    // a count goes up and down, through zero and up again inside a single transaction
+    let rc_cols: Vec<usize> = (0..u.cols.len()).filter(|c| u.cols[*c].is_rc()).collect();
+    let burst = if !rc_cols.is_empty() && unique.is_none() && rng.gen::<u32>() % 7 == 0 {
+        n = 3 + rng.gen::<usize>() % 4;
+        Some((rc_cols[rng.gen::<usize>() % rc_cols.len()], 1 + rng.gen::<usize>() % u.nkeys))
+    } else {
+        None
+    };
     for _ in 0..n {
-        let c = rng.gen::<usize>() % u.cols.len();
-        let k = 1 + rng.gen::<usize>() % u.nkeys;
+        let (c, k) = match burst {
+            Some(b) => b,
+            None => (rng.gen::<usize>() % u.cols.len(), 1 + rng.gen::<usize>() % u.nkeys),
+        };
         let spec = &u.cols[c];
         let r = rng.gen::<u32>() % 100;
         let key = u.key(c, k).clone();
